@@ -1,5 +1,6 @@
 import McpModel.Base.Proto
 import McpModel.Notify.System
+import McpModel.Notify.Roots
 /-!
 Driver for E14 (C18): the STRING LAYER only.  It parses the harness's op tokens and the implementation's
 observation into the typed records of `Monitor.lean` (`Mon.Op`, `Mon.Obs`), replays the op on the typed
@@ -394,10 +395,6 @@ def clauseText : Clause → String
 
 /-! ### the engine -/
 
-structure DState where
-  sys : Sys.State := {}
-  mon : MState := {}
-
 /-! ### `park` / `unsubdone`: the end of a listen parked in the application's UnsubscribeHandler
 
 `xend c<i> L<n> park` / `unsubscribe c<i> u<j> park`: the cancellation reaches the server, the handler's context
@@ -432,11 +429,84 @@ def normToks (toks : List String) : List String :=
   | "unsubdone" :: rest => "canceldone" :: rest
   | _ => toks
 
+/-! ### the client side: `roots …` records (model and monitor: `Roots.lean`) -/
+
+def parseRootsCfg (tok : String) : Option Roots.Cfg :=
+  if tok == "nil" then some {} else
+  if tok == "empty" then some { capsNil := false } else
+  (tok.splitOn "+").foldlM (fun (c : Roots.Cfg) part =>
+    if part == "v2on" then some { c with v2 := some true }
+    else if part == "v2off" then some { c with v2 := some false }
+    else if part == "v1on" then some { c with v1 := true }
+    else if part == "v1off" then some { c with v1 := false }
+    else none) { capsNil := false }
+
+def parseRootsLabel : List String → Option Roots.Label
+  | "add" :: us => (us.mapM parseUri).map Roots.Label.add
+  | "remove" :: us => (us.mapM parseUri).map Roots.Label.remove
+  | ["connect", sid, g] =>
+    if g == "legacy" || g == "modern" then sid.toNat?.map (Roots.Label.connect · (g == "modern")) else none
+  | ["close", sid] => sid.toNat?.map Roots.Label.close
+  | _ => none
+
+def gotStr (l : List Nat) : String :=
+  if l.isEmpty then "got -" else String.intercalate " " ("got" :: (sortBy (· ≤ ·) l).map toString)
+
+/-- `got 1 3` / `got -`; anything else is no observation of a roots call -/
+def parseGot (impl : String) : Option (List Nat) :=
+  match words impl with
+  | ["got", "-"] => some []
+  | "got" :: rest => rest.mapM (·.toNat?)
+  | _ => none
+
+def rootsClauseText : Roots.Clause → String
+  | .missed => "C18: at_least_one_after_burst (client roots): AddRoots / RemoveRoots changed the client's roots with listChanged enabled, and a connected session was not sent notifications/roots/list_changed"
+  | .disabled => "C18: none_when_disabled (client roots): notifications/roots/list_changed delivered although the client's roots listChanged capability is switched off (RootsV2 before Roots)"
+  | .notEntitled => "C18: fanout_entitled_only (client roots): notifications/roots/list_changed reached a server whose session is closed or was never connected"
+  | .noChange => "C18: at_least_one_after_burst (client roots): a notification although the call changed nothing (AddRoots without roots, RemoveRoots naming only URIs the client does not have)"
+  | .twice => "C18: fanout_entitled_only (client roots): one call notified the same session twice"
+
+structure RDState where
+  on : Bool := false
+  s : Roots.State := {}
+  m : Roots.MState := {}
+
+/-- one `roots …` record: (state, model observation, clause) -/
+def rootsStep (d : RDState) (toks : List String) (impl : String) : RDState × String × Option String :=
+  match toks with
+  | ["config", c] =>
+    match parseRootsCfg c, d.on with
+    | some cfg, false => ({ on := true, s := { cfg := cfg }, m := { cfg := cfg } }, "ok", none)
+    | _, _ => (d, "bad-op", none)
+  | _ =>
+    if !d.on then (d, "bad-op", none) else
+    match parseRootsLabel toks with
+    | none => (d, "bad-op", none)
+    | some l =>
+      let r := Roots.step d.s l
+      let model := match l with
+        | .add _ | .remove _ => gotStr (Roots.handled r.2)
+        | _ => "ok"
+      -- the monitor reads the IMPLEMENTATION's observation; an unreadable one of a call shows nobody
+      let got := match l with
+        | .add _ | .remove _ => (parseGot impl).getD []
+        | _ => []
+      let (m', viol) := Roots.monStep d.m l got
+      ({ d with s := r.1, m := m' }, model, viol.map rootsClauseText)
+
+structure DState where
+  sys : Sys.State := {}
+  mon : MState := {}
+  roots : RDState := {}
+
 def engine : Engine DState where
   init := {}
   step d toks impl :=
     match toks with
     | ["reset"] => ({}, { model := "ok" })
+    | "roots" :: rest =>
+      let (r', model, viol) := rootsStep d.roots rest impl
+      ({ d with roots := r' }, { model := model, violated := viol })
     | _ =>
       let park := isPark toks
       let op := if park && !parkable d.sys toks then Op.bad else parseOp (normToks toks)
@@ -445,7 +515,7 @@ def engine : Engine DState where
       let (sys', model) := Sys.sysStep d.sys op (hintOf impl')
       let (mon', viol) := monStep d.mon ⟨op, parseObs op impl'⟩
       let shown := if park && obsStr model == "ok cancel-held" then "ok unsub-held" else obsStr model
-      ({ sys := sys', mon := mon' }, { model := shown, violated := viol.map clauseText })
+      ({ d with sys := sys', mon := mon' }, { model := shown, violated := viol.map clauseText })
 
 end Notify.Drv
 
